@@ -299,6 +299,7 @@ func mergeCryptoCommon(ab *cmdsPair, al, bl []*cmd) []*cmd {
 	for _, bCmd := range bl {
 		if aCmd, found := m[key(bCmd)]; found {
 			if aCmd.parsed == bCmd.parsed {
+				mergeSubCmds(ab, aCmd, bCmd)
 				mergeRefs(ab, aCmd, bCmd)
 			} else {
 				mergeRefs(ab, nil, bCmd)
@@ -310,6 +311,9 @@ func mergeCryptoCommon(ab *cmdsPair, al, bl []*cmd) []*cmd {
 				bCmd.seq = al[0].seq
 			}
 			add = append(add, bCmd)
+			for _, bs := range bCmd.sub {
+				mergeRefs(ab, nil, bs)
+			}
 			mergeRefs(ab, nil, bCmd)
 		}
 	}
